@@ -225,6 +225,8 @@ def main(argv=None):
         if have < v:
             incon.append("monitor counter %s=%d below required %d" % (k, have, v))
 
+    if not col.samples and not incon:
+        incon.append("no sample case was recorded by any shard")
     known, fixed = load_known()
     by_mech = {}
     for v in col.violations:
@@ -265,7 +267,7 @@ def main(argv=None):
         print("  maxima: " + ", ".join("%s=%.3g" % (k, v) for k, v in sorted(col.maxima.items())))
     env.touch_cache()
     if env.OUT == env.VERIF:
-        env.prune_caches(keep=4)
+        env.prune_caches()
     return rc
 
 
